@@ -1,0 +1,17 @@
+//go:build verif
+
+package s2
+
+// Export hooks for the external verification harness (work package C12).
+// Thin wrappers only; no behaviour.
+
+import "github.com/golang/geo/r2"
+
+// VerifCellOrientation exposes the unexported orientation field of a Cell.
+func VerifCellOrientation(c Cell) int { return int(c.orientation) }
+
+// VerifCenterUV exposes CellID.centerUV.
+func VerifCenterUV(ci CellID) r2.Point { return ci.centerUV() }
+
+// VerifCapRadius2 exposes the squared chord length (s1.ChordAngle) radius of a Cap.
+func VerifCapRadius2(c Cap) float64 { return float64(c.radius) }
